@@ -63,3 +63,9 @@ Theorem C04_infeasible_by_cv :
     exists pi pj, nth_error pop i = Some pi /\ nth_error pop j = Some pj /\ leb N (m_cv pi) (m_cv pj) = true.
 Proof. intros N ok L. exact (infeasible_by_cv L). Qed.
 Print Assumptions C04_infeasible_by_cv.
+
+(* ---- binary64 (finite values; Flocq) ---- *)
+From PV Require Import Base.NumF Base.NumFOrd.
+Definition C04_pdomb_is_pareto_float := C04_pdomb_is_pareto Fn fin Fn_ord.
+Definition C04_infeasible_by_cv_float := C04_infeasible_by_cv Fn fin Fn_ord.
+Print Assumptions C04_pdomb_is_pareto_float.
